@@ -187,6 +187,12 @@ func (c *Ctx) c16Oracle(st *c16state, desc interface{}) {
 		if !alive && present {
 			c.Fail("oracle", "C16_delete_names", desc, fmt.Sprintf("defined name %s was scoped to a deleted sheet but still exists with scope %q", name, scope), "")
 		}
+		if !alive && !present {
+			// gone with its sheet: forget it (NewSheet gives the highest id + 1, so the id of a deleted sheet can come
+			// back for a new, unrelated sheet)
+			delete(st.scoped, name)
+			continue
+		}
 		if alive && !present {
 			c.Fail("oracle", "C16_delete_names", desc, fmt.Sprintf("defined name %s scoped to sheet %q disappeared", name, sheetName), "")
 		}
